@@ -229,6 +229,15 @@ def streams(seed, tier):
                 directed.append(case_run(prof, state(exec=[I("OUTPUT.WRITE")], ivec=[hdr, [5]], bvec=[body, [True]], output=q, int=[1], bool=[True]), 0, 1))
         for nm_, k in (("false", 0), ("true", 0), ("false", 1)):
             directed.append(case_run(prof, state(exec=[I("EXEC.CMD"), Z(7)], int=[k, 5], name=[nm_] * (k + 1) + ["A"], bool=[True], float=[fbits(1.0)], code=[Z(1)]), 0, 1))
+    counter = []
+    for prof in (0, 1):
+        for pre in ([I("GRAPH.NODE*ADD")] * 3, [I("GRAPH.EDGE*ADD"), I("GRAPH.NODE*ADD")], [I("GRAPH.NODE*SETSTATE"), I("GRAPH.NODE*ADD"), I("GRAPH.NODE*ADD")]):
+            b1 = stepgen.next_base(12)
+            g1 = stepgen.PyGraph({b1 + 1: 1}, {})
+            prog = pre + [I("INTEGER.FLUSH"), Z(5), I("GRAPH.NODE*ADD"), Z(6), I("GRAPH.NODE*ADD")]
+            counter.append(case_run(prof, state(exec=prog, graph=[g1.wire()], float=[fbits(1.0)]), 0, len(prog), world=(b1 + 2, ())))
+    out.append(Stream("unfired-then-fired", "run", "run.check", counter,
+                      "GRAPH.NODE*ADD / EDGE*ADD / NODE*SETSTATE lacking their operands, followed by two GRAPH.NODE*ADD that have them: the new nodes get the NEXT ids (an instruction that does not fire issues no id either)"))
     out.append(Stream("directed-full-buffers-and-commands", "run", "frame.check", directed,
                       "OUTPUT.WRITE onto full / nearly full OUTPUT queues whose newest header equals the header operand; EXEC.CMD applied to `true` and to `false` "
                       "(a command that exits non-zero): nothing outside the documented footprint changes"))
